@@ -179,7 +179,17 @@ class DefaultHandler(BaseHandler):
         if msg_path:
             if os.path.getsize(cur_file.name) >= CONF.message.write_msg_max_size:
                 cur_file.close()
-                msg_file_name = "%s.msg" % time.time()
+                now = time.time()
+                try:
+                    newest = float(os.path.basename(cur_file.name)[:-len('.msg')])
+                except ValueError:
+                    newest = now
+                if now < newest:
+                    # the order of the files is the order of their names (get_last_seq_and_file
+                    # relies on it): a clock that was stepped back must not put the new file
+                    # before the current one
+                    now = newest + 0.000001
+                msg_file_name = "%s.msg" % now
                 LOG.info('Open a new message file %s', msg_file_name)
                 msg_file = open(os.path.join(msg_path + msg_file_name), 'a')
                 self.peer_files[peer.lower()] = (msg_path, msg_file)
